@@ -89,11 +89,30 @@ theorem inplace_decoder_on_padded_text (lossy : Bool) (t : Buf) (i : Nat) (hi : 
     match StrIn.run lossy (StrIn.pad t) i with
     | .ok mem cnt e =>
       ∃ bs, Spec.stringS lossy (StrIn.pad t) i = some (bs, e) ∧ StrBlock.bytes mem i (i + cnt) = bs ∧
-        mem.size = (StrIn.pad t).size ∧ ∀ k, k < i ∨ e ≤ k → mem[k]? = (StrIn.pad t)[k]?
+        mem.size = (StrIn.pad t).size ∧ (∀ k, k < i → mem[k]? = (StrIn.pad t)[k]?) ∧ (∀ k, e ≤ k → mem[k]? = (StrIn.pad t)[k]?)
     | .err _ => Spec.stringS lossy (StrIn.pad t) i = none
     | .fault => False
     | .fuel => False :=
-  StrIn.Post_unpack (StrIn.pad t) i _ _ (StrIn.run_spec lossy t i hi)
+  StrIn.Post_unpack (StrIn.pad t) (StrIn.pad t) i _ _ (StrIn.run_spec lossy t i hi)
+
+/-- **… and after any earlier decodings in the same buffer** (the whole-input DOM parse decodes every string and member name
+    of the document in place, one after the other, in ONE buffer): let `mem0` be any buffer of the size of the padded copy
+    that still equals it from `i` on — which is what every earlier run leaves behind, by the last clause of this very
+    statement, because the parser only moves forward.  Then the decoder started at `i` on `mem0` terminates without any access
+    outside the buffer and decodes what the specification reads at `i` in the ORIGINAL padded text; it changes nothing in front
+    of the literal (earlier results stay intact) and leaves the original text from its final position on (later tokens are
+    read as they were written).  By induction over the literals of a document, in-place decoding is decoding of the
+    original text. -/
+theorem inplace_decoder_after_earlier_literals (lossy : Bool) (t mem0 : Buf) (i : Nat) (hi : i ≤ t.size)
+    (h0 : mem0.size = (StrIn.pad t).size) (hag : ∀ k, i ≤ k → mem0[k]? = (StrIn.pad t)[k]?) :
+    match StrIn.run lossy mem0 i with
+    | .ok mem cnt e =>
+      ∃ bs, Spec.stringS lossy (StrIn.pad t) i = some (bs, e) ∧ StrBlock.bytes mem i (i + cnt) = bs ∧
+        mem.size = (StrIn.pad t).size ∧ (∀ k, k < i → mem[k]? = mem0[k]?) ∧ (∀ k, e ≤ k → mem[k]? = (StrIn.pad t)[k]?)
+    | .err _ => Spec.stringS lossy (StrIn.pad t) i = none
+    | .fault => False
+    | .fuel => False :=
+  StrIn.Post_unpack (StrIn.pad t) mem0 i _ _ (StrIn.run_spec_mem lossy t mem0 i hi h0 hag)
 
 /-- … and the padding is what keeps it inside: on the bare text `"abc` (no closing quote, nothing behind it) the first
     block load already leaves the buffer -/
